@@ -330,9 +330,10 @@ func (ex *Exec) assert(kind, label string, goal *T) {
 	o := &Obl{Name: name, Kind: kind, Pos: ex.posString(ex.curPos), PC: ex.st.pc, Goal: goal, NFacts: len(ex.facts), Func: ex.name, Scopes: ex.st.scopes, FactIdx: -1}
 	ex.obls = append(ex.obls, o)
 	n0 := len(ex.facts)
-	if goal != False {
+	if goal != False && !isKnownFailing(name) {
 		// (an obligation that is false outright - a clause that cannot be evaluated - must not be assumed: it would make
-		// everything after it vacuous)
+		// everything after it vacuous; the same holds for an obligation that the committed known-findings file lists as
+		// failing on this tree: nothing may rest on it, in any property's check)
 		ex.assume(goal)
 	}
 	if len(ex.facts) == n0+1 {
@@ -1074,4 +1075,19 @@ func unparen(e ast.Expr) ast.Expr {
 		}
 		e = p.X
 	}
+}
+
+var knownFailing map[string]bool
+
+// isKnownFailing: the obligation is listed as a known (unrepaired) finding in KNOWN_FINDINGS.txt.
+func isKnownFailing(name string) bool {
+	if knownFailing == nil {
+		knownFailing = map[string]bool{}
+		for _, k := range loadKnownFindings() {
+			if k.kind == "known" && k.obl != "" {
+				knownFailing[k.obl] = true
+			}
+		}
+	}
+	return knownFailing[name]
 }
